@@ -74,7 +74,9 @@ class C08(Prop):
             if opt == "num":
                 opt = float(np.round(x.sum() * rng.choice([0.5, 1.0, 1.5]) * 8) / 8)
             elif opt == "vec":
-                opt = [float(lb[i] + (ub[i] - lb[i]) * rng.randint(0, 16) / 16) for i in range(nn)]
+                # requested intensities: inside the bounds, or partly beyond them (the closest feasible point is still well defined)
+                opt = [float(lb[i] + (ub[i] - lb[i]) * rng.randint(-8, 24) / 16) for i in range(nn)] if rng.random() < 0.5 else \
+                      [float(lb[i] + (ub[i] - lb[i]) * rng.randint(0, 16) / 16) for i in range(nn)]
             w = [1.0] * m if rng.random() < 0.5 else [rng.randint(2, 8) / 4 for _ in range(m)]
             cases.append({"sys": {k: (v.tolist() if isinstance(v, np.ndarray) else v) for k, v in sys.items()}, "b": b.tolist(), "w": w,
                           "opt": opt, "l2_eps": rng.choice([1e-6, 1e-5, 1e-4, 1e-3]),
